@@ -28,7 +28,7 @@
 (* harness: every function family gives bit-identical results on every        *)
 (* representation of the same Logical(c).                                     *)
 (***************************************************************************)
-EXTENDS Values, TLC
+EXTENDS Values, TLC, SequencesExt
 
 CONSTANTS MaxLen, MaxCap
 
@@ -92,6 +92,17 @@ AGetMutPresent(r, i) == i < ALen(r)
 \* apply_mut_with(other, f): element-wise on equal lengths, an error (and no change) otherwise
 ApplyMutWith(L, other, F(_, _)) == IF Len(L) = Len(other) THEN <<"ok", [i \in 1..Len(L) |-> F(L[i], other[i])]>> ELSE <<"err", L>>
 
+\* sort_unstable_by(cmp) on an owned container: the logical sequence becomes its sorted permutation IN
+\* PLACE - through the contiguous view where there is one, otherwise by sorting a copy and writing it
+\* back slot by slot; layout (head, capacity, offset, stride) and every cell outside the sequence stay
+Desc(x, y) == x > y
+ASorted(r) == Written(r, SortSeq(Logical(r), Desc))
+\* derived read accessors: the option view of an element / of the iteration, and the casting iterators,
+\* are functions of the same logical sequence (NULL <-> absent)
+OptOf(x) == IF x = NULL THEN <<>> ELSE <<x>>
+AUvGet(r, i) == OptOf(Logical(r)[i + 1])
+AToOptIter(r) == [i \in 1..ALen(r) |-> OptOf(Logical(r)[i])]
+
 (* ---- enumeration ------------------------------------------------------------------- *)
 
 Rings == {[rep |-> "ring", cap |-> cap, head |-> h, len |-> n,
@@ -145,6 +156,20 @@ SetOneOK ==
         LET L == Logical(c)  n == Len(L) IN
         /\ \A i \in 0..(n - 1) : Logical(SetOne(c, i, 999)) = [L EXCEPT ![i + 1] = 999]
         /\ \A i \in 0..(n + 1) : AGetMutPresent(c, i) <=> i < n
+
+\* C07 / C19: sorting in place leaves a sorted permutation of the same logical sequence in the same layout
+SortOK ==
+    c.rep \in {"vec", "ring", "strided"} =>
+        LET L == Logical(c)  n == Len(L)  w == ASorted(c)  M == Logical(w) IN
+        /\ Len(M) = n
+        /\ \A i \in 1..(n - 1) : M[i] >= M[i + 1]
+        /\ \A x \in {L[i] : i \in 1..n} : Cardinality({i \in 1..n : L[i] = x}) = Cardinality({i \in 1..n : M[i] = x})
+        /\ (c.rep = "ring" => w.head = c.head /\ w.cap = c.cap)
+        /\ (c.rep = "strided" => w.off = c.off /\ w.step = c.step)
+DerivedAgree ==
+    LET L == Logical(c) n == Len(L) IN
+    /\ \A i \in 0..(n - 1) : AUvGet(c, i) = OptOf(L[i + 1])
+    /\ Len(AToOptIter(c)) = n /\ \A i \in 1..n : (AToOptIter(c)[i] = <<>>) <=> (L[i] = NULL)
 
 \* the ring buffer mapping is a bijection onto the live cells
 RingLive == c.rep = "ring" => \A i, j \in 1..c.len : i # j => ((c.head + i - 1) % c.cap) # ((c.head + j - 1) % c.cap)
